@@ -401,6 +401,59 @@ def innermost_strictly_containing(tree, src, a, b):
     return best
 
 
+def offset_precondition(src, op):
+    """None if the recorded offset request is (still) a pure-trivia edit on the innermost containing node, else a reason."""
+    lines = src.split('\n')
+    ln, col, end_ln, end_col = op['rect']
+    if not (0 <= ln <= end_ln < len(lines) and 0 <= col <= len(lines[ln]) and 0 <= end_col <= len(lines[end_ln])):
+        return 'rect'
+    want = splice(src, ln, col, end_ln, end_col, op['text'])
+    wt, t0 = parse_full(want), parse_full(src)
+    if wt is None or t0 is None or sdump(wt) != sdump(t0):
+        return 'not trivia'
+    best = innermost_strictly_containing(t0, src, (ln + 1, col), (end_ln + 1, end_col))
+    if best is None or [list(p) for p in best[0]] != op['path']:
+        return 'node'
+    return None
+
+
+def gen_offset_op(rng, src):
+    """A pure-trivia `put_src(..., action='offset')` request on the innermost node strictly containing the spot."""
+    gs = gaps(src)
+    if not gs:
+        return None
+    for _ in range(6):
+        pe, ns, depth, pt, nt = rng.choice(gs)
+        lines = src.split('\n')
+        cur_single = pe[0] == ns[0]
+        # replacement trivia
+        choices = ['', ' ', '  ', '   ', '\t']
+        if depth > 0:
+            choices += ['\n', '\n    ', '\n' + ' ' * rng.randint(0, 12), ' # k\n', '  # ä🎉\n  ', '\n\n  ', '\n# own line\n    ']
+        else:
+            choices += [' \\\n', '\\\n  ', ' \\\n' + ' ' * rng.randint(0, 8)]
+        text = rng.choice(choices)
+        # sub-rectangle of the gap (whole gap, or a part of it when single-line)
+        if cur_single and ns[1] > pe[1] and rng.random() < 0.5:
+            c0 = rng.randint(pe[1], ns[1])
+            c1 = rng.randint(c0, ns[1])
+            rect = (pe[0] - 1, c0, pe[0] - 1, c1)
+        else:
+            rect = (pe[0] - 1, pe[1], ns[0] - 1, ns[1])
+        want = splice(src, *rect, text)
+        wt = parse_full(want)
+        t0 = parse_full(src)
+        if wt is None or t0 is None or sdump(wt) != sdump(t0):
+            continue  # not pure trivia
+        a = (rect[0] + 1, rect[1])
+        b = (rect[2] + 1, rect[3])
+        best = innermost_strictly_containing(t0, src, a, b)
+        if best is None:
+            continue
+        return {'k': 'offset', 'path': [list(p) for p in best[0]], 'rect': list(rect), 'text': text}
+    return None
+
+
 @plugin
 class C11(Plugin):
     prop = 'C11'
@@ -420,40 +473,7 @@ class C11(Plugin):
         root = run.root
         if rng.random() < run.cfg['p_edit']:
             return O.gen_edit(rng, root.a, run.cfg)
-        src = root.src
-        gs = gaps(src)
-        if not gs:
-            return None
-        for _ in range(6):
-            pe, ns, depth, pt, nt = rng.choice(gs)
-            lines = src.split('\n')
-            cur_single = pe[0] == ns[0]
-            # replacement trivia
-            choices = ['', ' ', '  ', '   ', '\t']
-            if depth > 0:
-                choices += ['\n', '\n    ', '\n' + ' ' * rng.randint(0, 12), ' # k\n', '  # ä🎉\n  ', '\n\n  ', '\n# own line\n    ']
-            else:
-                choices += [' \\\n', '\\\n  ', ' \\\n' + ' ' * rng.randint(0, 8)]
-            text = rng.choice(choices)
-            # sub-rectangle of the gap (whole gap, or a part of it when single-line)
-            if cur_single and ns[1] > pe[1] and rng.random() < 0.5:
-                c0 = rng.randint(pe[1], ns[1])
-                c1 = rng.randint(c0, ns[1])
-                rect = (pe[0] - 1, c0, pe[0] - 1, c1)
-            else:
-                rect = (pe[0] - 1, pe[1], ns[0] - 1, ns[1])
-            want = splice(src, *rect, text)
-            wt = parse_full(want)
-            t0 = parse_full(src)
-            if wt is None or t0 is None or sdump(wt) != sdump(t0):
-                continue  # not pure trivia
-            a = (rect[0] + 1, rect[1])
-            b = (rect[2] + 1, rect[3])
-            best = innermost_strictly_containing(t0, src, a, b)
-            if best is None:
-                continue
-            return {'k': 'offset', 'path': [list(p) for p in best[0]], 'rect': list(rect), 'text': text}
-        return None
+        return gen_offset_op(rng, root.src)
 
     def pre_op(self, op):
         run = self.run
